@@ -59,20 +59,23 @@ def caps(res, df, params, date):
         yield "rentenv<=employee_rate*ceiling", c["ges_rentenv_beitr_arbeitnehmer_m"], sv["beitr_satz"]["ges_rentenv"] * ceil_rv
         if has("arbeitsl_v_beitr_arbeitnehmer_m"):
             yield "arbeitsl_v<=employee_rate*ceiling", c["arbeitsl_v_beitr_arbeitnehmer_m"], sv["beitr_satz"]["arbeitsl_v"] * ceil_rv
-    if has("ges_krankenv_beitr_arbeitnehmer_m", "_ges_krankenv_beitr_bemess_grenze_m", "ges_krankenv_beitr_satz_arbeitnehmer"):
+    if has("ges_krankenv_beitr_arbeitnehmer_m", "_ges_krankenv_beitr_bemess_grenze_m"):
+        # health / long-term care: a person pays at most the *full* statutory rate (employee +
+        # employer share, incl. average additional contribution resp. the surcharge for the
+        # childless) on wage or self-employment income up to the ceiling, and once more on pension
+        # income up to the ceiling.  Rates from the named parameters (the person's own employee
+        # rate may be lower: discounts for children since 2023-07).
         ceil_kv = c["_ges_krankenv_beitr_bemess_grenze_m"].to_numpy()
-        rate = c["ges_krankenv_beitr_satz_arbeitnehmer"].to_numpy()
-        factor = np.where(selbst, 2.0, 1.0) + 2.0
-        yield "krankenv<=rate*ceiling(+pension part)", c["ges_krankenv_beitr_arbeitnehmer_m"], factor * rate * ceil_kv
+        kv = sv["beitr_satz"]["ges_krankenv"]
+        kv_full = max(float(v) for k, v in kv.items() if k in ("allgemein", "mean_allgemein", "ermäßigt")) + sum(
+            float(v) for k, v in kv.items() if k in ("mean_zusatzbeitrag", "sonderbeitrag", "zusatz"))
+        yield "krankenv<=2*full_rate*ceiling", c["ges_krankenv_beitr_arbeitnehmer_m"], 2.0 * kv_full * ceil_kv
         if has("ges_krankenv_beitr_rentner_m"):
-            yield "krankenv_wage_part<=rate*ceiling", c["ges_krankenv_beitr_arbeitnehmer_m"].to_numpy() - c["ges_krankenv_beitr_rentner_m"].to_numpy(), np.where(selbst, 2.0, 1.0) * rate * ceil_kv
-        if has("ges_pflegev_beitr_arbeitnehmer_m", "ges_pflegev_beitr_satz_arbeitnehmer"):
-            prate = c["ges_pflegev_beitr_satz_arbeitnehmer"].to_numpy()
-            yield "pflegev<=rate*ceiling(+pension part)", c["ges_pflegev_beitr_arbeitnehmer_m"], factor * prate * ceil_kv
-    if has("elterngeld_m", "elterngeld_geschwisterbonus_m", "elterngeld_mehrlingsbonus_m"):
-        yield "elterngeld<=max+bonuses", c["elterngeld_m"], (params["elterngeld"]["höchstbetrag"]
-                                                             + c["elterngeld_geschwisterbonus_m"].to_numpy()
-                                                             + c["elterngeld_mehrlingsbonus_m"].to_numpy())
+            yield "krankenv_wage_part<=full_rate*ceiling", c["ges_krankenv_beitr_arbeitnehmer_m"].to_numpy() - c["ges_krankenv_beitr_rentner_m"].to_numpy(), kv_full * ceil_kv
+        if has("ges_pflegev_beitr_arbeitnehmer_m"):
+            pv = sv["beitr_satz"]["ges_pflegev"]
+            pv_full = 2.0 * float(pv["standard"]) + float(pv.get("zusatz_kinderlos", 0.0))
+            yield "pflegev<=2*full_rate*ceiling", c["ges_pflegev_beitr_arbeitnehmer_m"], 2.0 * pv_full * ceil_kv
     if has("elterngeld_m", "elterngeld_geschwisterbonus_m", "elterngeld_mehrlingsbonus_m", "_elterngeld_anz_mehrlinge_fg"):
         eg = params["elterngeld"]
         # caps on the bonuses themselves, from named parameters: the sibling bonus is 10 % of an
